@@ -11,6 +11,7 @@ use crate::subscriptions::{
 use crate::topics::{RemoveSubscriptionError, Topic, TopicMessage};
 use std::cmp::Ordering;
 use std::collections::HashMap;
+use std::sync::atomic::{AtomicBool, Ordering as AtomicOrdering};
 use std::sync::{Arc, Weak};
 use std::time::Duration;
 use tokio::sync::{mpsc, oneshot};
@@ -31,6 +32,10 @@ pub struct Subscription {
 
     /// Used by the actor to notify of interesting events.
     observer: Arc<SubscriptionObserver>,
+
+    /// Set as soon as the deletion of the subscription begins, before the topic is asked
+    /// to let go of it. The topic does not attach a subscription that has this set.
+    detach_requested: AtomicBool,
 }
 
 /// Information about a subscription.
@@ -93,7 +98,17 @@ impl Subscription {
             sender,
             internal_id,
             observer,
+            detach_requested: AtomicBool::new(false),
         }
+    }
+
+    /// Whether the deletion of the subscription has begun.
+    ///
+    /// A subscription is registered before it is attached to its topic. A deletion that
+    /// comes in between asks the topic to detach a subscription it does not know yet; the
+    /// topic must then not attach it afterwards, or it would stay attached forever.
+    pub(crate) fn is_detach_requested(&self) -> bool {
+        self.detach_requested.load(AtomicOrdering::SeqCst)
     }
 
     /// Returns a signal for new messages.
@@ -195,6 +210,10 @@ impl Subscription {
         let name = self.name.clone();
         let internal_id = self.internal_id;
         let sender = self.sender.clone();
+
+        // From here on the topic must not attach this subscription (anymore): the request
+        // to detach it may overtake an attach that is still on its way to the topic.
+        self.detach_requested.store(true, AtomicOrdering::SeqCst);
 
         // The deletion runs in a task of its own. The subscription actor must never wait
         // for the topic actor (which waits for the subscription's mailbox while publishing),
